@@ -157,6 +157,7 @@ structure Behav where
   finPeak : Nat := 0                -- finalized height implied by the applicable part of the served chain
   target : Option Nat := none       -- the peer announced its block of that height (its tip is above)
   tmhp : Nat := 0                   -- maxHeightPrevoted of the announced block
+  age : Option Nat := none          -- recent chains: current slot - slot of the requester's finalized block
 
 def parseBehav (s : Scn) (w : List String) : Behav :=
   { cap := kv w "cap", stop := kv w "stop", badStatic := kv w "badstatic", badExec := kv w "badexec",
@@ -165,7 +166,7 @@ def parseBehav (s : Scn) (w : List String) : Behav :=
       | some t => (parseTok s t).map some
       | none => none,
     finPeak := (kv w "finpeak").getD 0,
-    target := kv w "target", tmhp := (kv w "tmhp").getD 0,
+    target := kv w "target", tmhp := (kv w "tmhp").getD 0, age := kv w "age",
     force := match kvs w "force" with
       | some "fast" => some .fast
       | some "block" => some .block
@@ -209,7 +210,8 @@ def runSync (s : Scn) (b : Behav) : String :=
   | some target =>
     let mode := match b.force with
       | some m => m
-      | none => chooseMode s.n s.lenQ target.height true true
+      | none => chooseMode s.n s.lenQ target.height true
+          (match b.age with | some a => shouldSync s.n (Int.ofNat a) 0 | none => true)
     let out : Out Id := if b.force.isNone && !target.ok then ⟨q, [], false, some .invalidBlock⟩ else match mode with
       | .fast => fastSync (applies b) (fun _ => b.finPeak) s.n s.finQ q target (mkPeer s b)
       | .block => blockSync (applies b) s.n s.finQ s.mhpQ q
@@ -272,6 +274,23 @@ def step (s : Scn) (w : List String) : Scn × String :=
         let last := match d.1.getLast? with | some b => tokOf s b.id | none => "-"
         "dl n=" ++ toString d.1.length ++ " first=" ++ first ++ " last=" ++ last ++ " done=" ++ (if d.2 then "1" else "0")
       | _, _, _, _ => "bad-op")
+  | "sfs" :: r =>
+    (s, match kv r "h", kv r "n", kv r "gen" with
+      | some h, some n, some g =>
+        if chooseMode n s.lenP h (g == 1 && n > 0) false == .fast then "fast=1" else "fast=0"
+      | _, _, _ => "bad-op")
+  | "ss" :: r =>
+    (s, match (kvs r "d").bind String.toInt?, kv r "n" with
+      | some d, some n => if shouldSync n d 0 then "stale=1" else "stale=0"
+      | _, _ => "bad-op")
+  | "fs" :: r =>
+    (s, match kv r "fin", kv r "n" with
+      | some fin, some n =>
+        if n < 1 ∨ fin > s.lenQ then "bad-op" else
+        match fastCommon n s.chainQ (honest s.chainP s.mhpP) with
+        | .ok ch => "common " ++ tokOf s (s.qid ch)
+        | .error _ => "err"
+      | _, _ => "bad-op")
   | "cs" :: r =>
     (s, match kv r "fin", kv r "n" with
       | some fin, some n =>
